@@ -375,3 +375,67 @@ def check_unitquaternion_ctor(run, rule='R13'):
             run.violation(rule, f.key, construct, 'caller-supplied quaternion is stored without normalisation (%s)' % src(elt, 30), f=f, node=a)
     if n < 6:
         run.error('R13: only %d stores recognised in UnitQuaternion.__init__' % n)
+
+
+def check_twist_sum_arm(run, rule='R15'):
+    """Twist composition is log(exp(x) exp(y)).  The sum x + y equals it only when the two twists COMMUTE:
+    [x, y] = (w1 x v2 + v1 x w2, w1 x w2) = 0, a condition on the linear parts as well as on the angular parts.  A kernel handed to
+    the broadcasting helper in Twist3.__mul__ / Twist2.__mul__ that returns the sum of its two arguments under a guard which reads
+    only the angular parts (parallel directions) decides commutation from half of the information: parallel axes through different
+    points do not commute."""
+    prog = run.prog
+    n = 0
+    for key in ('twist:Twist3.__mul__', 'twist:Twist2.__mul__'):
+        f = prog.functions.get(key)
+        if f is None:
+            continue
+        kernels = []
+        for x in ast.walk(f.node):
+            if isinstance(x, ast.Lambda) and len(x.args.args) == 2:
+                kernels.append((x.args.args[0].arg, x.args.args[1].arg, [x.body], x))
+            elif isinstance(x, ast.FunctionDef) and x is not f.node and len(x.args.args) == 2:
+                kernels.append((x.args.args[0].arg, x.args.args[1].arg, x.body, x))
+        for (a, b, body, node) in kernels:
+            nang = 3 if 'Twist3' in key else 1
+            # locals that hold the linear / angular part of an argument
+            lin = set()
+            for st in ast.walk(node):
+                if isinstance(st, ast.Assign):
+                    tg = st.targets[0]
+                    vals = st.value.elts if isinstance(st.value, ast.Tuple) and isinstance(tg, ast.Tuple) else [st.value]
+                    tgs = tg.elts if isinstance(tg, ast.Tuple) and isinstance(st.value, ast.Tuple) else [tg]
+                    for t_, v_ in zip(tgs, vals):
+                        if isinstance(t_, ast.Name) and isinstance(v_, ast.Subscript) and isinstance(v_.value, ast.Name) and v_.value.id in (a, b) \
+                                and isinstance(v_.slice, ast.Slice) and v_.slice.lower is None and v_.slice.upper is not None:
+                            lin.add(t_.id)
+
+            def reads_linear(e):
+                for y in ast.walk(e):
+                    if isinstance(y, ast.Name) and y.id in lin:
+                        return True
+                    if isinstance(y, ast.Subscript) and isinstance(y.value, ast.Name) and y.value.id in (a, b) and isinstance(y.slice, ast.Slice) \
+                            and y.slice.lower is None and y.slice.upper is not None:
+                        return True
+                    if isinstance(y, ast.Name) and y.id in (a, b) and not isinstance(getattr(y, '_parent', None), ast.Subscript):
+                        pass
+                return False
+
+            def walk(stmts, guards):
+                nonlocal n
+                for st in stmts:
+                    if isinstance(st, ast.If):
+                        walk(st.body, guards + [st.test])
+                        walk(st.orelse, guards)
+                    elif isinstance(st, ast.Return) and st.value is not None or isinstance(st, ast.expr):
+                        v = st.value if isinstance(st, ast.Return) else st
+                        if isinstance(v, ast.BinOp) and isinstance(v.op, ast.Add) and {getattr(v.left, 'id', None), getattr(v.right, 'id', None)} == {a, b}:
+                            n += 1
+                            if not any(reads_linear(g) for g in guards):
+                                run.violation(rule, f.key, 'sum arm of the twist product', 'the kernel returns %s + %s for twists whose guard (%s) reads only the '
+                                              'angular parts: the sum is the product only for commuting twists, and [x, y] = (w1 x v2 + v1 x w2, w1 x w2) '
+                                              'depends on the linear parts too (parallel axes through different points do not commute)' %
+                                              (a, b, ' and '.join(src(g, 40) for g in guards) or 'none'), f=f, node=v)
+                            else:
+                                run.error('R15: %s: a sum arm of the twist product under a guard on the linear parts: commutation is not decided' % key)
+            walk(body if isinstance(body[0], ast.stmt) else [ast.Return(value=body[0])], [])
+    return n
